@@ -15,7 +15,9 @@ RULE = (
     "population rule); distinct = interleaving signature"
 )
 ASSUMPTIONS = [
-    "well-formed PDU = whatever the spacepackets codec encodes and decodes again (PDUs cross as bytes)",
+    "well-formed PDU = whatever the spacepackets codec encodes and decodes again (PDUs cross as bytes); file names are str in "
+    "that codec's Metadata model, so a name field that is not UTF-8 is not generated (its decoding error comes out of the codec's "
+    "own property; DESIGN 12.2)",
     "un-drained PDUs at call entry are known to the shell: 0 while it drains completely, else the public counter",
     "admission set = direction, ids, sequence number, not-for-this-handler, ignored-for-mode/state, no-remote-config",
     "FileNotFoundError / PermissionError raised by the user's filestore are not handler-internal errors",
